@@ -1,5 +1,7 @@
 import LyModel.Lex.Utf8Reads
 import LyModel.Lex.JsonNumLemmas
+import LyModel.Lex.JsonStrBufLemmas
+import LyModel.Lex.XmlBufLemmas
 /-!
 # C05 — arbitrary input never corrupts memory: the lexers as buffer programs
 
@@ -9,7 +11,11 @@ never both" is the `Except` / `Option` result type.  What is proved here, for AL
 
 * no store of `lyjson_exp_number` lands at or behind the `buf_len + 1` allocated bytes, and no length handed to
   `memset` / the copy loop is negative (`json_exp_number_in_bounds`);
-* `ly_getutf8` reads index `i` only when the bytes before it are not NUL (`getutf8_reads_before_nul`).
+* `ly_getutf8` reads index `i` only when the bytes before it are not NUL (`getutf8_reads_before_nul`);
+* `lyjson_string` and `lyxml_parse_value` with `len`, `offset`, the recorded `size` and the really allocated size as
+  state never store at or behind the allocation — including the growth step of `lyjson_string` that reallocates to
+  `size + increment` but records `size + STEP` — and return exactly what the buffer-free models of C01 return
+  (`json_string_buffer_safe`, `xml_value_buffer_safe`).
 -/
 namespace LyModel.Props.C05
 open LyModel LyModel.JsonNum LyModel.Lex.Utf8Reads
@@ -46,5 +52,35 @@ theorem getutf8_reads_before_nul (inp : Bytes) :
 
 /-- non-vacuity: a truncated 4-byte sequence `F0 90 80` is read up to index 3 — the NUL — and not further -/
 example : getUtf8I [0xF0, 0x90, 0x80] = (none, [0, 1, 2, 3]) ∧ cstrlen [0xF0, 0x90, 0x80] = 3 := by decide
+
+/-- **`lyjson_string`: the output buffer is never overrun.**  The instrumented lexer — every `memcpy`, `ly_pututf8`
+    and the final NUL guarded by `index < allocated size` — never trips a guard (`some …`), for any input, and its
+    result (value and rest of input, or the error kind) is that of `JsonText.parse`, the model C01's round trip is
+    proved about.  The invariant behind it: the recorded `size` never exceeds the real allocation, so the C's
+    under-recording (`size += STEP` after `realloc(size + increment)`) is harmless. -/
+theorem json_string_buffer_safe (inp : Bytes) :
+    Lex.JsonStrBuf.parseI inp = some (JsonText.parse inp) :=
+  Lex.JsonStrBuf.parseI_eq inp
+
+/-- non-vacuity: 150 pending bytes and then an escape: the buffer is grown to 280 bytes while 152 is recorded -/
+example : ({ Lex.JsonStrBuf.St.init with pending := List.replicate 150 97 } : Lex.JsonStrBuf.St).prepare =
+    some { hasBuf := true, out := List.replicate 150 97, size := 152, alloc := 280, pending := [] } := by
+  set_option maxRecDepth 8000 in rfl
+
+/-- non-vacuity: a value that needs the buffer (`ab\n"` → `ab␊`) -/
+example : Lex.JsonStrBuf.parseI [97, 98, 92, 110, 34, 44] = some (.ok ([97, 98, 10], [44])) := by rfl
+
+/-- **`lyxml_parse_value`: the output buffer is never overrun.**  The same for XML character data and attribute
+    values: `lyxml_parse_value_use_buf` (first `BUFSIZE`, then steps of `BUFSIZE_STEP` until
+    `len + offset + need_space < size`, with `need_space = 4` for a reference and the CDATA length for a CDATA
+    section), the entity / character-reference / CDATA stores and the final NUL all stay inside the allocation, and
+    the result is that of `XmlText.parse`. -/
+theorem xml_value_buffer_safe (endc : UInt8) (inp : Bytes) :
+    Lex.XmlBuf.parseI endc inp = some (XmlText.parse endc inp) :=
+  Lex.XmlBuf.parseI_eq endc inp
+
+/-- non-vacuity: `a&lt;<![CDATA[x]]>&#65;<` → `a<xA` -/
+example : Lex.XmlBuf.parseI 60 [97, 38, 108, 116, 59, 60, 33, 91, 67, 68, 65, 84, 65, 91, 120, 93, 93, 62, 38, 35, 54, 53, 59, 60] =
+    some (.ok ([97, 60, 120, 65], false, [60])) := by rfl
 
 end LyModel.Props.C05
